@@ -1343,6 +1343,19 @@ func (s *Session) expandTopicName(msg *ClientComMessage) (string, *ServerComMess
 		routeTo = msg.Original
 	}
 
+	// The routable name must start with a known topic type prefix:
+	// types.GetTopicCat panics on anything else.
+	if len(routeTo) < 3 {
+		logs.Warn.Println("s.etn: invalid topic name", s.sid)
+		return "", ErrMalformed(msg.Id, msg.Original, msg.Timestamp)
+	}
+	switch routeTo[:3] {
+	case "usr", "p2p", "grp", "fnd", "sys":
+	default:
+		logs.Warn.Println("s.etn: invalid topic name", s.sid)
+		return "", ErrMalformed(msg.Id, msg.Original, msg.Timestamp)
+	}
+
 	return routeTo, nil
 }
 
